@@ -239,6 +239,10 @@ struct World<'a> {
     alive: bool,
     case: String,
     lines0: usize,
+    /// ids of the pages the real `reconstruct_pages` produced since the last `w_apply` (what the seek of this pass rebuilt)
+    recon_ids: std::collections::BTreeSet<Vec<u8>>,
+    /// terminals of this pass that lie in or below a reconstructed page
+    recon_entered: usize,
 }
 
 #[derive(Clone, Debug)]
@@ -255,7 +259,7 @@ impl<'a> World<'a> {
         sim.set_garbage(garbage);
         let lines0 = out.ops.len();
         out.line(format!("wreset {}", match garbage { None => "-".to_string(), Some(g) => g.to_string() }), "ok".into());
-        World { out, sim, store: BTreeMap::new(), kv: BTreeMap::new(), root: [0u8; 32], next_bucket: 1, inhibit, pending: vec![], alive: false, case, lines0 }
+        World { out, sim, store: BTreeMap::new(), kv: BTreeMap::new(), root: [0u8; 32], next_bucket: 1, inhibit, pending: vec![], alive: false, case, lines0, recon_ids: Default::default(), recon_entered: 0 }
     }
     fn fail(&mut self, msg: String) {
         let c = self.case.clone();
@@ -418,6 +422,8 @@ impl<'a> World<'a> {
                 self.store.insert(path, Stored { data: p.page.clone(), bucket: b });
             }
         }
+        self.recon_ids.clear();
+        self.recon_entered = 0;
         self.out.line("wapply".into(), "ok".into());
         self.w_set();
     }
@@ -480,18 +486,102 @@ impl<'a> World<'a> {
             if below.len() >= THRESHOLD && !self.inhibit {
                 self.fail(format!("C02 page {} holds {} leaves but is elided", pid_str(&pid), below.len()));
             }
-            if self.w_recon(parent, at, &below).is_none() {
+            let Some(views) = self.w_recon(parent, at, &below) else {
                 return false;
-            }
+            };
+            self.check_recon(&views, &path[..l], &below);
             if self.sim.set_get(&pid).is_none() {
                 self.fail(format!("C02 reconstruction below {} did not produce page {}", bits_string(at), pid_str(&pid)));
                 return false;
             }
         }
+        if self.recon_ids.contains(&path) {
+            // the terminal lies in a page the seek of this pass reconstructed: the walk will ENTER it
+            self.recon_entered += 1;
+            self.out.count("terminal_in_reconstructed_page");
+        }
         true
     }
 
     // ----- oracles -----
+    /// the pages the real `reconstruct_pages` yielded for the elided page `first` from the leaves `below` (all under it):
+    /// exactly the pages at / below `first` whose prefix holds >= 2 leaves, every slot whose parent is internal = reference
+    /// node, leaf counters = numbers of leaves (in the page / in the pages below it), the diff names every meaningful slot
+    fn check_recon(&mut self, views: &[pw::ReconstructedView], first: &[u8], below: &[(Key, [u8; 32])]) {
+        let mut got: BTreeMap<Vec<u8>, &pw::ReconstructedView> = BTreeMap::new();
+        for v in views {
+            let path = v.page_id.length_dependent_encoding().to_vec();
+            if got.insert(path.clone(), v).is_some() {
+                self.fail(format!("C02 recon: page {} is reconstructed twice", pid_str(&v.page_id)));
+            }
+            self.recon_ids.insert(path);
+        }
+        // the pages that must be there
+        let mut todo: Vec<Vec<u8>> = vec![first.to_vec()];
+        let mut want_pages = 0usize;
+        while let Some(path) = todo.pop() {
+            let pre = page_bits(&path);
+            let here = under(below, &pre);
+            if here.len() < 2 {
+                continue;
+            }
+            want_pages += 1;
+            let Some(v) = got.get(&path) else {
+                self.fail(format!("C02 recon: page {} ({} leaves below) was not reconstructed", pid_str(&mk_pid(&path)), here.len()));
+                continue;
+            };
+            let mut leaves_in_page = 0u64;
+            for i in 0..126 {
+                let sp = slot_path(&path, i);
+                if sp.len() > 256 {
+                    continue;
+                }
+                if under(below, &sp[..sp.len() - 1]).len() >= 2 {
+                    let sub = under(below, &sp);
+                    let want = ref_node(sub, sp.len());
+                    if v.page.nodes[i] != want {
+                        self.fail(format!("C02 recon: slot {} of reconstructed page {} holds {} but the node at {} is {}", i, pid_str(&v.page_id), hex(&v.page.nodes[i]), bits_string(&sp), hex(&want)));
+                    }
+                    if sub.len() == 1 {
+                        leaves_in_page += 1;
+                    }
+                    let changed = if i < 64 { (v.diff[0] >> i) & 1 == 1 } else { (v.diff[1] >> (i - 64)) & 1 == 1 };
+                    if !changed {
+                        self.fail(format!("C16 recon diff: the diff of reconstructed page {} does not name the meaningful slot {}", pid_str(&v.page_id), i));
+                    }
+                }
+            }
+            if v.page_leaves_counter != leaves_in_page {
+                self.fail(format!("C02 recon counters: page {} reports {} leaves in the page, the reference trie has {}", pid_str(&v.page_id), v.page_leaves_counter, leaves_in_page));
+            }
+            if v.page_leaves_counter + v.children_leaves_counter != here.len() as u64 {
+                self.fail(format!("C02 recon counters: page {} reports {} + {} leaves, {} keys lie below it", pid_str(&v.page_id), v.page_leaves_counter, v.children_leaves_counter, here.len()));
+            }
+            if path.len() < 42 {
+                let mut seen = std::collections::BTreeSet::new();
+                for (k, _) in here {
+                    seen.insert((0..6).fold(0u8, |a, j| a * 2 + bit(k, pre.len() + j) as u8));
+                }
+                for c in seen {
+                    let mut cp = path.clone();
+                    cp.push(c);
+                    let n = under(below, &page_bits(&cp)).len();
+                    if n >= 2 && (v.page.elided >> c) & 1 != 1 {
+                        self.fail(format!("C02 recon: reconstructed page {} does not flag its child {} ({} leaves) as elided", pid_str(&v.page_id), c, n));
+                    }
+                    todo.push(cp);
+                }
+            }
+        }
+        if want_pages != views.len() {
+            self.fail(format!("C02 recon: {} pages reconstructed below {}, the reference trie has {}", views.len(), pid_str(&mk_pid(first)), want_pages));
+        }
+        self.out.count("recon_checked");
+        self.out.add("recon_checked_pages", views.len() as u64);
+        let depth = views.iter().map(|v| v.page_id.depth()).max().unwrap_or(0).saturating_sub(first.len()) + 1;
+        self.out.count(&format!("recon_chain_depth_{}", depth.min(5)));
+        self.out.count(&format!("recon_leaves_{}", match below.len() { 0..=1 => "0_1", 2..=4 => "2_4", 5..=9 => "5_9", 10..=15 => "10_15", 16..=19 => "16_19", _ => "20_plus" }));
+    }
     /// the whole store against the reference trie of `self.kv`
     fn check_store(&mut self, what: &str) {
         let kvs = self.kvs();
@@ -961,6 +1051,230 @@ fn run_history(out: &mut Sink, rng: &mut Rng, case: String) {
     }
 }
 
+
+// ---------------------------------------------------------------------------------------------------------------
+// histories that walk INTO reconstructed pages (unit Q35)
+
+/// a small cluster of keys below a stored region: candidates under a common prefix that ends 1..4 pages below the bulk
+struct ReconCluster {
+    pool: Vec<Key>,
+}
+
+/// a bulk of >= 20 keys under `d0` bits (so the pages down to there are stored) and, inside it, 1..3 clusters of up to 26
+/// candidate keys under prefixes of 12..48 bits; most candidates share 0..3 further sextets, so the 2..19 leaves of a cluster
+/// occupy a chain of 1..4 pages
+fn gen_recon_universe(rng: &mut Rng) -> (Vec<Key>, Vec<ReconCluster>) {
+    let base = rng.bytes32();
+    let d0 = rng.range(4, 13);
+    let mut bulk: Vec<Key> = (0..rng.range(20, 30)).map(|_| with_prefix(rng, &base, d0)).collect();
+    let mut clusters = Vec::new();
+    for _ in 0..rng.range(1, 3) {
+        // the cluster's own prefix: below a page of depth >= 2, at / around a page boundary
+        let k = rng.range(2, 7);
+        let d = (6 * k + [0usize, 0, 1, 5, 3][rng.below(5)]).min(60);
+        let cbase = with_prefix(rng, &base, d0.min(d));
+        let chain = rng.below(4); // further shared sextets
+        let deep = (d + 6 * chain + rng.below(6)).min(200);
+        let spine = with_prefix(rng, &cbase, d);
+        let mut pool: Vec<Key> = Vec::new();
+        for _ in 0..26 {
+            let k = match rng.below(8) {
+                0 => with_prefix(rng, &spine, d),                         // leaves the chain at once
+                1 => {
+                    // leaves it at a page boundary
+                    let at = (d + 6 * rng.below(chain + 1)).min(deep);
+                    with_prefix(rng, &spine, at)
+                }
+                2 => {
+                    // a sibling leaf just below the end of the chain
+                    let mut x = with_prefix(rng, &spine, deep);
+                    let j = (deep + rng.below(8)).min(255);
+                    set_bit(&mut x, j, !bit(&spine, j));
+                    x
+                }
+                _ => with_prefix(rng, &spine, deep),
+            };
+            pool.push(k);
+        }
+        pool.sort();
+        pool.dedup();
+        clusters.push(ReconCluster { pool });
+    }
+    bulk.sort();
+    bulk.dedup();
+    (bulk, clusters)
+}
+
+fn run_recon_history(out: &mut Sink, rng: &mut Rng, case: String) {
+    let garbage = if rng.chance(1, 4) { Some(rng.range(1, 255) as u8) } else { None };
+    let mut w = World::new(out, garbage, false, case);
+    let (bulk, clusters) = gen_recon_universe(rng);
+    let npasses = rng.range(3, 7);
+    // the size every cluster has after every pass: start small (elided), then cross the threshold both ways, empty out, regrow
+    let mut sizes: Vec<Vec<usize>> = Vec::new();
+    for c in &clusters {
+        let cap = c.pool.len();
+        let mut v = vec![rng.range(2, THRESHOLD - 1).min(cap)];
+        for _ in 1..npasses {
+            let prev = *v.last().unwrap();
+            let n = match rng.below(9) {
+                0 | 1 => rng.range(THRESHOLD, THRESHOLD + 5),          // grow across the threshold
+                2 => THRESHOLD,                                          // exactly the threshold
+                3 => THRESHOLD - 1,                                      // one below
+                4 => rng.range(2, THRESHOLD - 1),                        // small again
+                5 => rng.below(2),                                       // (nearly) empty: the pages go
+                6 => prev,                                               // values only
+                7 => (prev + 1).min(cap),                                // one more
+                _ => prev.saturating_sub(rng.range(1, 3)),               // a few less
+            };
+            v.push(n.min(cap));
+        }
+        sizes.push(v);
+    }
+    let mut concluded = 0;
+    let mut entered_any = false;
+    for pass in 0..npasses {
+        let mut m: BTreeMap<Key, Option<Option<[u8; 32]>>> = BTreeMap::new();
+        if pass == 0 {
+            for k in &bulk {
+                m.insert(*k, Some(Some(rng.bytes32())));
+            }
+        } else {
+            // a little traffic in the bulk
+            for _ in 0..rng.below(3) {
+                let k = *rng.pick(&bulk);
+                let wv = if w.kv.contains_key(&k) && rng.chance(1, 3) { None } else { Some(rng.bytes32()) };
+                m.insert(k, Some(wv));
+            }
+        }
+        for (ci, c) in clusters.iter().enumerate() {
+            let target = sizes[ci][pass];
+            let mut present: Vec<Key> = c.pool.iter().filter(|k| w.kv.contains_key(*k)).cloned().collect();
+            let mut absent: Vec<Key> = c.pool.iter().filter(|k| !w.kv.contains_key(*k)).cloned().collect();
+            while present.len() > target {
+                let k = present.swap_remove(rng.below(present.len()));
+                m.insert(k, Some(None));
+            }
+            while present.len() < target && !absent.is_empty() {
+                let k = absent.swap_remove(rng.below(absent.len()));
+                m.insert(k, Some(Some(rng.bytes32())));
+                present.push(k);
+            }
+            // rewrite / read some of the leaves that stay, so that terminals lie INSIDE the cluster even when its size stays
+            for _ in 0..rng.range(1, 3) {
+                if present.is_empty() {
+                    break;
+                }
+                let k = *rng.pick(&present);
+                m.entry(k).or_insert(if rng.chance(3, 4) { Some(Some(rng.bytes32())) } else { None });
+            }
+            if rng.chance(1, 3) && !absent.is_empty() {
+                // a read / delete of an absent key of the cluster (terminal = a terminator or a foreign leaf inside it)
+                let k = *rng.pick(&absent);
+                m.entry(k).or_insert(if rng.chance(1, 2) { None } else { Some(None) });
+            }
+        }
+        let batch: Vec<(Key, Option<Option<[u8; 32]>>)> = m.into_iter().collect();
+        let mut new_kv = w.kv.clone();
+        for (k, op) in &batch {
+            match op {
+                Some(Some(v)) => {
+                    new_kv.insert(*k, *v);
+                }
+                Some(None) => {
+                    new_kv.remove(k);
+                }
+                None => {}
+            }
+        }
+        let new_kvs: Vec<(Key, [u8; 32])> = new_kv.iter().map(|(k, v)| (*k, *v)).collect();
+        let split = rng.chance(1, 3);
+        w.out.count(if split { "pass_split" } else { "pass_whole" });
+        let stored_before: std::collections::BTreeSet<Vec<u8>> = w.store.keys().cloned().collect();
+        let r = if split { pass_split(&mut w, rng, &batch, &new_kvs) } else { pass_whole(&mut w, &batch) };
+        let Some(root) = r else {
+            break;
+        };
+        concluded += 1;
+        let want = ref_root(&new_kvs);
+        if root != want {
+            w.fail(format!("C02 pass {pass}: concluded root {} but the root of the updated set ({} keys) is {}", hex(&root), new_kvs.len(), hex(&want)));
+        }
+        let pend = w.pending.clone();
+        w.check_output_pages(&pend, &new_kvs, &format!("pass {pass}"));
+        // a page that was reconstructed for this pass and is handed out was promoted: its diff must carry EVERY meaningful slot
+        // (it goes to a fresh bucket), and it must not be handed out as cleared
+        let recon_ids = w.recon_ids.clone();
+        let entered = w.recon_entered;
+        if entered > 0 {
+            entered_any = true;
+            w.out.count("walk_entered_reconstructed");
+            w.out.add("terminals_in_reconstructed_pages", entered as u64);
+            if split {
+                w.out.count("walk_entered_reconstructed_split");
+            }
+        }
+        for p in &pend {
+            let path = p.page_id.length_dependent_encoding().to_vec();
+            if recon_ids.contains(&path) {
+                if p.diff[1] & CLEAR_BIT != 0 {
+                    w.fail(format!("C16 pass {pass}: reconstructed page {} is handed out as cleared", pid_str(&p.page_id)));
+                }
+                if p.bucket.is_some() {
+                    w.fail(format!("C16 pass {pass}: reconstructed page {} is handed out with a bucket", pid_str(&p.page_id)));
+                }
+                if under(&new_kvs, &page_bits(&path)).len() < THRESHOLD {
+                    w.fail(format!("C02 pass {pass}: reconstructed page {} is promoted with {} leaves below", pid_str(&p.page_id), under(&new_kvs, &page_bits(&path)).len()));
+                }
+                w.out.count("promoted");
+            }
+        }
+        // a reconstructed page that is NOT handed out stays elided: fewer than the threshold below it
+        for path in &recon_ids {
+            let n = under(&new_kvs, &page_bits(path)).len();
+            if !pend.iter().any(|p| &p.page_id.length_dependent_encoding().to_vec() == path) {
+                if n >= THRESHOLD {
+                    w.fail(format!("C02 pass {pass}: reconstructed page {} holds {} leaves after the pass but is not handed out", pid_str(&mk_pid(path)), n));
+                }
+                w.out.count(if n >= 2 { "reconstructed_stays_elided" } else { "reconstructed_vanishes" });
+            }
+        }
+        w.kv = new_kv;
+        w.root = root;
+        w.w_apply();
+        w.check_store(&format!("after pass {pass}"));
+        let stored_after: std::collections::BTreeSet<Vec<u8>> = w.store.keys().cloned().collect();
+        for p in stored_before.difference(&stored_after) {
+            if p.len() >= 2 {
+                w.out.count("demoted");
+            }
+        }
+        for p in stored_after.difference(&stored_before) {
+            if p.len() >= 2 && !recon_ids.contains(p) {
+                w.out.count("created_stored");
+            }
+        }
+        let kvs = w.kvs();
+        for p in &stored_after {
+            if p.len() >= 2 && under(&kvs, &page_bits(p)).len() < THRESHOLD {
+                w.out.count("stored_kept_below_threshold");
+            }
+        }
+        w.out.add("batch_ops", batch.len() as u64);
+    }
+    w.out.count("recon_histories");
+    if entered_any {
+        w.out.count("recon_histories_entering");
+    }
+    if concluded >= 2 && entered_any {
+        let sig = w.out.ops[w.lines0..].join("\n");
+        w.out.nontrivial(&sig);
+    }
+    if garbage.is_some() {
+        w.out.count("histories_garbage_fresh_pages");
+    }
+}
+
 /// free-form scripts on a page set a valid pass produced: contract violations, missing pages, deeper parent pages
 fn run_freeform(out: &mut Sink, rng: &mut Rng, case: String) {
     let garbage = if rng.chance(1, 4) { Some(rng.range(1, 255) as u8) } else { None };
@@ -1203,14 +1517,18 @@ fn run_directed(out: &mut Sink) {
 pub fn run(seed: u64, cases: usize, focus: &str, out: &mut Sink) {
     let mut rng = Rng::new(seed ^ 0x57a1_4e55);
     let split_only = focus == "split";
+    let recon_only = focus == "recon";
     FORCE_SPLIT.store(split_only, std::sync::atomic::Ordering::Relaxed);
-    if !split_only {
+    if !split_only && !recon_only {
         run_directed(out);
     }
     for c in 0..cases {
         out.mark_case(format!("walker seed={seed} case={c}"));
         let mut r = rng.fork();
-        if c % 5 == 4 && !split_only {
+        if recon_only || (c % 5 == 2 && !split_only) {
+            // walks INTO reconstructed pages: every case of `--focus recon`, one in five of the default mix
+            run_recon_history(out, &mut r, format!("walker --seed {seed} case {c} (recon){}", if recon_only { " --focus recon" } else { "" }));
+        } else if c % 5 == 4 && !split_only {
             run_freeform(out, &mut r, format!("walker --seed {seed} case {c} (freeform)"));
         } else {
             run_history(out, &mut r, format!("walker --seed {seed} case {c}"));
